@@ -126,13 +126,16 @@ def _build_argv(v, outdir):
     return [t for it in _build_items(v, outdir) for t in it]
 
 
-def fresh_outdir(tag='gen', nested=False):
+def fresh_outdir(tag='gen', nested=False, style=0):
     """A not yet existing output directory; nested=True: its parent does not exist either
-    (the README layout `-o ./hr/instances`)."""
-    top = os.path.join(solverio.workdir(), tag)
+    (the README layout `-o ./hr/instances`).  style: how the name is spelt - 1 upper-case
+    letters, 2 a blank in the name, 3 a trailing slash."""
+    name = {1: tag.capitalize() + '_A', 2: tag + ' dir'}.get(style, tag)
+    top = os.path.join(solverio.workdir(), name)
     if os.path.exists(top):
         shutil.rmtree(top)
-    return os.path.join(top, 'hr', 'instances') if nested else top
+    out = os.path.join(top, 'HR' if style == 1 else 'hr', 'instances') if nested else top
+    return out + '/' if style == 3 else out
 
 
 def outdir_top(outdir):
